@@ -277,9 +277,26 @@ func makeContent(action, name string, cs exported.ClientState, cons exported.Con
 // pass ValidateBasic can be submitted at all; the handler runs in a cache context that is written
 // only when it returns nil.
 func (w *world) propose(t tb, content govtypes.Content) (res proposalResult) {
+	// the way the content reaches the handler on a chain: it travels inside the submitting transaction (encoded, decoded
+	// into a fresh object), stateless validation runs on that object, the same object is stored with the proposal (encoded
+	// again) and the stored content is what the handler executes. The generator's own objects (the expectation) are never
+	// handed to the code under test, so a validation that rewrote the content would show up as a mismatch.
+	hop := func(in govtypes.Content) govtypes.Content {
+		msg, ok := in.(proto.Message)
+		if !ok {
+			kit.Failf("content is no proto message")
+		}
+		bz, err := w.c.App.AppCodec().MarshalInterface(msg)
+		kit.Must(err, "encode proposal content")
+		var out govtypes.Content
+		kit.Must(w.c.App.AppCodec().UnmarshalInterface(bz, &out), "decode proposal content")
+		return out
+	}
+	content = hop(content)
 	if err := content.ValidateBasic(); err != nil {
 		return proposalResult{validateBasic: err}
 	}
+	content = hop(content)
 	cacheCtx, write := w.c.Ctx().CacheContext()
 	func() {
 		defer func() {
